@@ -808,4 +808,13 @@ def RA_state_model_extend(ctx):
     R4_state_model(ctx)
 
 
-RULES = [R1_traverse, R2_record, R3_soc, R4_vehicles, R5_phev_switch, R6_starting_charge, R7_best_case, R8_registry, R9_units, C09.R4_constructors, RA_state_model_extend]
+def RB_vehicle_per_query(ctx):
+    """"the state of charge starts at the query's starting value": the vehicle is prepared from *this* query on every build — nothing
+    that survives a query is reachable from the shared services (shared with C06.R1 interior-mutability inventory and C06.R3 per-query
+    construction; round 7: vehicles memoised by model name in the energy model service)"""
+    from props.C06 import R1_inventory, R3_per_query
+    R1_inventory(ctx)
+    R3_per_query(ctx)
+
+
+RULES = [R1_traverse, R2_record, R3_soc, R4_vehicles, R5_phev_switch, R6_starting_charge, R7_best_case, R8_registry, R9_units, C09.R4_constructors, RA_state_model_extend, RB_vehicle_per_query]
